@@ -155,7 +155,20 @@ Fixpoint mentions_pred (name : str) (f : cform) : bool :=
   | FForall _ _ _ b | FExists _ _ _ b | FForallInt _ b | FExistsInt _ b => mentions_pred name b
   end.
 Definition K_nth (f : cform) : bool := mentions_pred s_nth f.
-Definition K_count (f : cform) : bool := mentions_pred s_count f.
+(* the recorded count defect: a count atom of POSITIVE polarity in the scope of an existential
+   quantifier (exists under positive, forall under negative polarity).  Negated count atoms and
+   count atoms under universal quantifiers only are outside the class. *)
+Fixpoint count_exists_pos (pol inex : bool) (f : cform) : bool :=
+  match f with
+  | FSemPred n _ => pol && inex && str_eqb n s_count
+  | FSmt _ | FSPred _ _ => false
+  | FNot g => count_exists_pos (negb pol) inex g
+  | FAnd fs | FOr fs => existsb (count_exists_pos pol inex) fs
+  | FForall _ _ _ b => count_exists_pos pol (inex || negb pol) b
+  | FExists _ _ _ b => count_exists_pos pol (inex || pol) b
+  | FForallInt _ b | FExistsInt _ b => count_exists_pos pol inex b
+  end.
+Definition K_count (f : cform) : bool := count_exists_pos true false f.
 (* consecutive: the implementation's predicate departs from consecutive_spec (C04 finding
    consecutive-relative-paths, open), so solutions satisfy ISLa's evaluator but not the spec *)
 Definition K_consecutive (f : cform) : bool := mentions_pred s_consecutive f.
